@@ -11,6 +11,15 @@ in a CHILD process over the same raftdir (ROBUSTIRC_TESTING_ENABLE_PANIC_COMMAND
               remaining steps, a further entry
 and after every step the node is compared with a reference that applied the log
 MINUS the marked entries (duplicate marker advanced by hand), see fsm_common.Judge.
+
+Encoding migration (FSM.tla RestartWithEncoding; FSM_migedges.cfg / FSM_mig.cfg): the chain
+starts as a JSON node (-pre1.0_protobuf=false), and one of its process starts is made with
+the protobuf encoding: NewLevelDBStore converts the raft log store and the irclog
+(ConvertToProto, CopyToProtoMessage, raftlog.FromBytes), a JSON snapshot is restored by
+decodeJson, the converted log is replayed.  A message of death is marked in the JSON life,
+in the protobuf life, or in both; the marked entry is the session's last line when the
+stores are converted.  The raw content of both stores is recorded before and after the
+conversion: only the encoding of an entry may change (fsm_common.check_conversion).
 """
 import concurrent.futures
 import json
@@ -146,14 +155,25 @@ def run_panic_schedule(eng, sched, alog, tag, extra_entry=True, lie=()):
             seg = []
     segments.append(seg)
     resume = False
+    cur_proto = sched["proto"]         # -pre1.0_protobuf of the process that runs the segment
     try:
         for k, seg in enumerate(segments):
             dies = bool(seg) and seg[-1]["a"] == "ApplyPanics"
+            convdump = False
             if resume and seg and seg[0]["a"] == "Restart":
                 seg = seg[1:]                      # the process start IS the model's Restart
+            elif resume and seg and seg[0]["a"] == "RestartEnc":
+                # the process start IS the model's RestartWithEncoding: the child starts with the other
+                # encoding over the stores the crashed process left (and records them before/after)
+                cur_proto = (seg[0]["enc"] == "proto")
+                convdump = True
+                seg = seg[1:]
             last = (k == len(segments) - 1)
             s = dict(sched, name="%s#%d" % (sched["name"], k), steps=seg, dir=raftdir, resume=resume,
-                     mod=list(mod) + (list(lie) if mod else []))
+                     mod=list(mod) + (list(lie) if mod else []), proto=cur_proto, convdump=convdump)
+            for st in seg:
+                if st["a"] == "RestartEnc":        # a migration inside the segment (the node was up)
+                    cur_proto = (st["enc"] == "proto")
             if last and extra_entry:
                 # "the node continues to apply new entries": one more line from the first session
                 n = len(s["log"]) + 1
@@ -182,11 +202,12 @@ def run_panic_schedule(eng, sched, alog, tag, extra_entry=True, lie=()):
                     break
                 facts["crashes"] += 1
                 post = dump(eng, raftdir, "%s-%d-dump" % (tag, k))
-                findings += check_marking(about[-1]["raw"], post, idx, sched["proto"])
+                findings += check_marking(about[-1]["raw"], post, idx, cur_proto)
+                facts["crashes_" + ("proto" if cur_proto else "json")] = facts.get("crashes_" + ("proto" if cur_proto else "json"), 0) + 1
                 mod.append(idx)
                 resume = True
             elif died:
-                if resume and "PANIC called" in out and not [e for e in evs if e.get("ev") == "Restart"]:
+                if resume and "PANIC called" in out and not [e for e in evs if e.get("ev") in ("Restart", "RestartEnc")]:
                     findings.append(("mod-crash-loop", "after the restart the node crashed again while replaying its log "
                                      "(marked entries %s): the entry that crashed it is not skipped" % mod))
                 else:
@@ -269,8 +290,43 @@ def handcrafted():
     return out
 
 
-def operator_schedule(name, proto, snapshot):
-    """PANIC from an IRC operator, on a general log (differential oracle only)."""
+def handcrafted_migration():
+    """The migration paths the task names, as behaviours of FSM.tla (InitEnc = "json"): a message of
+    death marked in the JSON life / in the protobuf life / in both, the marked entry being the session's
+    last line when the stores are converted, snapshot + restore in the new encoding afterwards, a JSON
+    snapshot (with and without the marked entry among its retained records) restored by the protobuf node."""
+    reg = F.PRELUDES["PreludeReg"]
+    line = lambda ts, i: F._e("cmd", "line", ts, 1, i, 0)
+    panic = lambda ts, i, s=1: F._e("cmd", "panic", ts, s, i, 0)
+    A = lambda i, e: H("Apply", i, e)
+    P = lambda i, e: H("ApplyPanics", i, e)
+    M = dict(H("RestartEnc"), enc="proto")
+    snap = [H("SnapshotTake", now=64), H("PersistOK")]
+    pre = [A(1, reg[0]), A(2, reg[1]), A(3, reg[2])]
+    out = {}
+    # marked in the JSON life (last line of the session), converted, protobuf snapshot retains the marked entry, restore
+    out["json-crash-convert-snapshot-restore"] = pre + [A(4, line(6, 4)), P(5, panic(6, 5)), M] + snap + [H("Restore"), A(6, line(6, 6)), H("Restart")]
+    # ... the protobuf snapshot folds the marked entry
+    out["json-crash-convert-fold-marked"] = pre + [P(4, panic(0, 4)), M, A(5, line(6, 5))] + snap + [H("Restart"), H("Restore"), A(6, line(6, 6))]
+    # JSON snapshot, crash, conversion: decodeJson + replay of the converted marked entry; live restore of the JSON
+    # snapshot by the protobuf node; the marked entry is applied again from the converted raft log
+    out["json-snapshot-crash-convert-restore"] = pre + [A(4, line(6, 4))] + snap + [P(5, panic(6, 5)), M, H("Restore"), A(5, panic(6, 5)),
+                                                                                     A(6, line(6, 6)), H("Restart")]
+    # the JSON snapshot retains the marked entry (taken after the JSON restart), restored by the protobuf node
+    out["json-snapshot-retains-marked-convert"] = pre + [P(4, panic(6, 4)), H("Restart"), A(5, line(6, 5))] + snap + [M, H("Restore"), A(6, line(6, 6))]
+    # marked in the protobuf life, after the migration of a calm JSON node
+    out["convert-then-crash"] = pre + [A(4, line(6, 4)), M, P(5, panic(6, 5)), H("Restart")] + snap + [H("Restore"), A(6, line(6, 6))]
+    # one message of death in each life
+    out["crash-in-both-lives"] = pre + [P(4, panic(0, 4)), M, A(5, line(6, 5)), P(6, panic(6, 6)), H("Restart")]
+    # crash with a snapshot pending in the JSON life, conversion, the snapshot is repeated as protobuf
+    out["json-crash-pending-snapshot-convert"] = pre + [A(4, line(6, 4)), H("SnapshotTake", now=64), P(5, panic(6, 5)), M] + snap + [H("Restart")]
+    return out
+
+
+def operator_schedule(name, proto, snapshot, migrate=False):
+    """PANIC from an IRC operator, on a general log (differential oracle only).  migrate: the JSON node
+    is restarted with the protobuf encoding after the crash; the entries carry everything an entry can
+    carry (remote address, 64-bit client message ids, config revision, raft extensions)."""
     T = F.T0
     S = 10**9
     log = [
@@ -294,7 +350,17 @@ def operator_schedule(name, proto, snapshot):
     steps = [{"a": "Apply", "i": i} for i in range(1, 12)]
     if snapshot == "before":
         steps += [{"a": "SnapshotTake", "now": old}, {"a": "PersistOK"}]
-    steps += [{"a": "ApplyPanics", "i": 12}, {"a": "Restart"}, {"a": "Apply", "i": 13}]
+    steps += [{"a": "ApplyPanics", "i": 12}, {"a": "RestartEnc", "enc": "proto"} if migrate else {"a": "Restart"}]
+    if migrate:
+        big = 0x6b43fe3c00000000
+        for e in log:
+            if e["kind"] == "cmd" and e["type"] == F.T_LINE:
+                e["cmid"] += big
+                e["addr"] = "192.0.2.%d:%d" % (e["sess"], 4000 + e["idx"])
+            e["ext"] = "x%d" % e["idx"]
+        # the marked entry stays the operator's last line across the conversion, a snapshot and a restore
+        steps += [{"a": "SnapshotTake", "now": old}, {"a": "PersistOK"}, {"a": "Restore"}]
+    steps += [{"a": "Apply", "i": 13}]
     if snapshot == "after":
         steps += [{"a": "SnapshotTake", "now": old}, {"a": "PersistOK"}, {"a": "Restart"}]
     steps += [{"a": "Apply", "i": 14}, {"a": "Restart"}]
@@ -345,7 +411,19 @@ def _run(ctx):
 
     eng.env = dict(PANIC_ENV)
 
-    # 1. the design: FSM_mod*.cfg carry the invariants; the edge run below is the exhaustive check
+    # 1. the design: FSM_mod*.cfg / FSM_mig*.cfg carry the invariants; the edge runs below are exhaustive checks.
+    #    The migration graph (JSON life -> RestartWithEncoding("proto") -> protobuf life, a crash in either life)
+    #    is generated by a second JVM while the message-of-death graph is.
+    pool = concurrent.futures.ThreadPoolExecutor(max_workers=2)
+    f_mig = pool.submit(eng.edges, "FSM_migedges.cfg" if quick else "FSM_migedges2.cfg", 1500)
+    if not quick:
+        def exhaustive_mig():
+            r = eng.exhaustive("FSM_mig.cfg", workers=6, timeout=1500, coverage=True)
+            ctx.cov["coverage_zero_FSM_mig"] = [l for l in r.coverage_zero() if "module FSM" in l][:20]
+            taken = [l.strip() for l in r.out.splitlines() if l.startswith("<RestartWithEncoding ")]
+            ctx.cov["coverage_RestartWithEncoding"] = taken[-1:] if taken else []
+            ctx.log("FSM_mig: %d distinct states, depth %d" % (r.distinct, r.depth))
+        eng.background("exhaustive-mig", exhaustive_mig)
     # 2. behaviours: every transition of the message-of-death graph
     behs, nedges = eng.edges("FSM_mod.cfg" if quick else "FSM_mod2.cfg", timeout=1500, coverage=not quick)
     ctx.cov["edges_mod"] = nedges
@@ -359,6 +437,20 @@ def _run(ctx):
     if len(calm) > (600 if quick else 20000):
         calm = rng.sample(calm, 600 if quick else 20000)
     eng.replay_behaviours(calm, "PreludeReg", "calm", nproc=4 if quick else 6)
+
+    # 2a'. the migration graph: behaviours that contain the migration; the calm ones in-process (JSON node,
+    #      restarted as a protobuf node: conversion of both stores recorded raw, JSON snapshot restored by decodeJson)
+    mbehs, mnedges = f_mig.result()
+    pool.shutdown()
+    ctx.cov["edges_migration"] = mnedges
+    mbehs = [b for b in mbehs if any(h["a"] == "RestartEnc" for h in b)]
+    mcrash = [b for b in mbehs if any(h["a"] == "ApplyPanics" for h in b)]
+    mcalm = [b for b in mbehs if not any(h["a"] == "ApplyPanics" for h in b) and not folds_all(b)]
+    ctx.log("migration graph: %d transitions -> %d behaviours with a migration and a crash, %d with a migration only"
+            % (mnedges, len(mcrash), len(mcalm)))
+    if len(mcalm) > (250 if quick else 20000):
+        mcalm = rng.sample(mcalm, 250 if quick else 20000)
+    eng.replay_behaviours(mcalm, "PreludeReg", "migcalm", proto_of=lambda k: False, nproc=4 if quick else 6)
 
     # 2b. behaviours with crashes: child processes; one per distinct shape first, then seeded sample
     byshape = {}
@@ -383,6 +475,28 @@ def _run(ctx):
     for snap in ("none", "before", "after"):
         for proto in (True, False):
             jobs.append((operator_schedule("oper-%s-%s" % (snap, "pb" if proto else "json"), proto, snap), [], False, True))
+    # the same with the encoding migration of the node: always a JSON node at first
+    nmig0 = len(jobs)
+    for name, b in sorted(handcrafted_migration().items()):
+        s, alog = F.concretize(b, F.PRELUDES["PreludeReg"], "mig-%s" % name, proto=False, rng=rng)
+        jobs.append((s, alog, True, True))
+    mshape = {}
+    for b in mcrash:
+        mshape.setdefault(shape_of(b), []).append(b)
+    mshapes = sorted(mshape)
+    rng.shuffle(mshapes)
+    mbudget = 24 if quick else 500
+    mchosen = [rng.choice(mshape[sh]) for sh in mshapes[:mbudget]]
+    if len(mchosen) < mbudget:
+        rest = [b for b in mcrash if b not in mchosen]
+        mchosen += rng.sample(rest, min(len(rest), mbudget - len(mchosen)))
+    for k, b in enumerate(mchosen):
+        s, alog = F.concretize(b, F.PRELUDES["PreludeReg"], "migcrash-%d" % k, proto=False, rng=rng)
+        jobs.append((s, alog, True, not folds_all(b)))
+    for snap in ("none", "before", "after"):
+        jobs.append((operator_schedule("oper-mig-%s" % snap, False, snap, migrate=True), [], False, True))
+    ctx.cov["migration_crash_shapes_total"] = len(mshapes)
+    ctx.cov["migration_crash_schedules"] = len(jobs) - nmig0
     ctx.cov["crash_shapes_total"] = len(shapes)
     ctx.cov["crash_schedules_with_fold_all_snapshot"] = sum(1 for j in jobs if not j[3])
     ctx.cov["crash_schedules"] = len(jobs)
@@ -398,12 +512,17 @@ def _run(ctx):
         for f in concurrent.futures.as_completed(futs):
             results[futs[f]] = f.result()
     crashes = children = steps = nbad = 0
+    crashes_by_life = {"json": 0, "proto": 0}
+    conversions = 0
     tv_items = []
     for k in range(len(jobs)):
         s, alog, absf, statep = jobs[k]
         findings, all_events, facts = results[k]
         crashes += facts["crashes"]
         children += facts["children"]
+        for life in crashes_by_life:
+            crashes_by_life[life] += facts.get("crashes_" + life, 0)
+        conversions += sum(1 for seg, ee in all_events for e in ee if e.get("conv"))
         if not statep:
             # a snapshot folds every entry in this behaviour (C02's F2 territory): judge with all predicates, and
             # fall back to the message-of-death predicates alone if only the snapshot bookkeeping fails
@@ -435,6 +554,8 @@ def _run(ctx):
             evs = [e for e in evs if not (e.get("post") and e["post"]["applied"] > len(alog))]
             tv_items.append((s, alog, evs))
     ctx.cov["crashes_observed"] = crashes
+    ctx.cov["crashes_by_life"] = crashes_by_life
+    ctx.cov["conversions_in_crash_chains"] = conversions
     ctx.cov["child_processes"] = children
     ctx.cov["steps_replayed"] += steps
     ctx.cov["schedules_replayed"] += len(jobs)
@@ -447,6 +568,24 @@ def _run(ctx):
                     "steps": [st["a"] for st in s["steps"]]})
     if crashes == 0:
         raise vlib.Inconclusive("no crash was observed: the PANIC command did not fire")
+    if not crashes_by_life["json"] or not crashes_by_life["proto"] or not conversions:
+        raise vlib.Inconclusive("the migration chains did not run: crashes by life %s, conversions %d" % (crashes_by_life, conversions))
+
+    # 3'. the binding binds for the migration (a second JVM, while the chains are validated): a recorded
+    #     encoding that is not the model's must be rejected by TLC
+    def tv_selftest_migration():
+        for s_, alog_, evs_ in tv_items:
+            if not s_["name"].startswith("mig-json-crash-convert-snapshot-restore"):
+                continue
+            bad = json.loads(json.dumps(evs_))
+            hit = [e for e in bad if e.get("ev") == "RestartEnc" and e.get("post")]
+            if not hit:
+                return None
+            hit[0]["post"]["renc"][-1][2] = "json"          # the marked entry's payload "stayed JSON"
+            r_ = F.validate_traces(ctx, [(s_, alog_, bad)], tag="st-mig")
+            return bool(r_["resyncs"] or r_["violated"])
+        return None
+    f_stmig = eng.bg.submit(tv_selftest_migration)
 
     # 3. trace validation of the crash chains (ApplyPanics / Restart with the mod set)
     r = F.validate_traces(ctx, tv_items, tag="tv-crash")
@@ -495,6 +634,26 @@ def _run(ctx):
         ctx.violation = saved
         F.judge_all.sigs.clear()
         F.judge_all.flagged.discard("selftest")
+    # ... and for the migration: the recorded conversion of the handcrafted chain is accepted as it is, a
+    # marked entry whose ClientMessageId / a plain entry whose RemoteAddr differs after the conversion is noticed
+    convs = [e["conv"] for k in range(len(jobs)) if jobs[k][0]["name"].startswith("oper-mig-none")
+             for seg, ee in results[k][1] for e in ee if e.get("conv")]
+    if convs:
+        conv = convs[0]
+        st["clean_conversion_accepted"] = not F.check_conversion(conv)[0]
+        tam = json.loads(json.dumps(conv))
+        marked = [r_ for r_ in tam["raft_post"] if r_.get("msg") and r_["msg"]["Type"] == F.T_MOD]
+        if marked:
+            marked[0]["msg"]["ClientMessageId"] = (marked[0]["msg"].get("ClientMessageId") or 0) + 1
+        st["tampered_marked_entry_detected"] = any(b[0] == "conv-raftlog-marked-entry-fields-changed" for b in F.check_conversion(tam)[0])
+        tam = json.loads(json.dumps(conv))
+        plain = [r_ for r_ in tam["irc_post"] if r_.get("msg") and r_["msg"].get("RemoteAddr")]
+        if plain:
+            plain[0]["msg"]["RemoteAddr"] = ""
+        st["tampered_irclog_entry_detected"] = any(b[0] == "conv-irclog-entry-fields-changed" for b in F.check_conversion(tam)[0])
+    else:
+        st["clean_conversion_accepted"] = False
+    st["wrong_recorded_encoding_rejected"] = bool(f_stmig.result())
     ctx.cov["binding_selftest"] = st
     ctx.log("binding selftest: %s" % st)
     if not all(st.values()):
